@@ -252,6 +252,22 @@ def root_local_of_ref(b, o):
     return root_local(b, {"l": r, "p": []})
 
 
+def check_sparse_builder_enables(ctx, F, tag, prefix):
+    """The value SparseVector::load returns has both select structures of `high` enabled on every Ok path (sparse-load-enables);
+    the value the builder conversion returns must have exactly the same, on every Ok path -- otherwise a vector built in memory
+    differs from its own loaded copy (derived PartialEq and size_in_elements look at the option fields)."""
+    tf = "<sparse_vector::SparseVector as std::convert::TryFrom<sparse_vector::SparseBuilder>>::try_from"
+    if not F.has_body(tf):
+        raise Undecided("anchor lost: " + tf)
+    b = F.body(tf)
+    oks = ok_blocks(b).get("Ok", [])
+    for want in ("enable_select", "enable_select_zero"):
+        blocks = [bi for bi, t in b.calls() if callee_name(t).endswith("::" + want)]
+        ok = bool(blocks) and bool(oks) and must_pass_through(b, 0, blocks, to_blocks=oks)
+        ctx.ob(prefix + ".sparse-builder-enables-what-load-enables", "%s|%s%s" % (tf, want, tag), loc(b.raw["span"]), ok, "must-pass-through",
+               "every path to Ok calls high.%s() (as SparseVector::load does): %s" % (want, ok))
+
+
 def check_composite_loaders(ctx, F, tag, prefix):
     """Loaders of structures that embed plain bitvectors enable/rebuild what their queries use on every Ok path."""
     sl = F.body("<sparse_vector::SparseVector as serialize::Serialize>::load")
@@ -365,9 +381,22 @@ def check_partial_unit_counts(ctx, F, tag, prefix="C19.R2"):
         return False
     pushes = [bi for bi, tt in sb.calls() if callee_name(tt).endswith("Push>::push") and borrows_field(sb, tt["args"][0], "long")]
     data_dependent = any(bi in sb.loop_blocks() for bi in pushes)
+    sem = ""
+    if not trunc and data_dependent:
+        # any other spelling: compared with ceil(entries / SUPERBLOCK_SIZE) over the residues of the entry count (A13)
+        import residues
+        S = F.const("bit_vector::select_support::SelectSupport::<T>::SUPERBLOCK_SIZE") if hasattr(F, "const") else None
+        try:
+            S = int(S)
+        except Exception:
+            S = None
+        if S:
+            r_, sem = residues.agrees(F, b.term_of_local(0), lambda x: x[0] == "call" and x[1].endswith("::len") and self_path(core(x[2][0])) == ["long"],
+                                      lambda N: ("bin", "Div", ("bin", "Add", N, ("const", S - 1)), ("const", S)))
+            trunc = r_ is False
     ctx.ob(prefix + ".partial-unit-count-rounds-up", name + tag, loc(b.raw["span"]), not (trunc and data_dependent), "formula+builder-shape",
-           "long_superblocks() = %s; the builder pushes a data-dependent number of `long` entries per superblock (loop): %s; truncating division: %s" % (
-               tstr(t)[:80], data_dependent, trunc))
+           "long_superblocks() = %s; the builder pushes a data-dependent number of `long` entries per superblock (loop): %s; truncating division: %s %s" % (
+               tstr(t)[:80], data_dependent, trunc, sem))
 
 
 def check_support_sample_counts(ctx, F, tag, prefix="C19.R2"):
